@@ -182,4 +182,88 @@ fn c02c06_negate__complement() {
     assert!(op.negate().negate() == op);
 }
 
+// C05 / C06 (bounded stand-in, native): IS [NOT] DISTINCT FROM on real arrays in every layout.  `binary_distinct_execute`
+// has its own loop over validity masks and dictionary selections (it does not go through the generic executors): for
+// every pair of input layouts (flat, dictionary-selected with reordering / repetition, selected twice, constant,
+// constant NULL -- all of logical length 4, with and without NULLs) and every row selection (identity, reversed, a
+// subset with a repeat), output position k equals the SQL definition applied to the LOGICAL values of row sel[k]:
+//   a IS DISTINCT FROM b  =  (a, b both NULL -> false; exactly one NULL -> true; otherwise a <> b).
+fn distinct_layouts() -> Vec<(String, Array)> {
+    use crate::arrays::scalar::BorrowedScalarValue;
+    use crate::buffer::buffer_manager::DefaultBufferManager;
+    use crate::util::iter::TryFromExactSizeIterator;
+    let mut out: Vec<(String, Array)> = Vec::new();
+    out.push(("flat no NULL".to_string(), Array::try_from_iter(vec![1i32, 2, 3, 1]).unwrap()));
+    out.push(("flat with NULL".to_string(), Array::try_from_iter(vec![Some(1i32), None, Some(3), Some(2)]).unwrap()));
+    let base = vec![Some(0i32), Some(1), None, Some(2), Some(3), None];
+    for sel in [vec![5usize, 1, 3, 2], vec![1, 1, 2, 0], vec![3, 4, 0, 1], vec![2, 5, 2, 4]] {
+        let mut a = Array::try_from_iter(base.clone()).unwrap();
+        a.select(&DefaultBufferManager, sel.clone()).unwrap();
+        out.push((format!("dictionary {sel:?} over {base:?}"), a));
+    }
+    let mut a = Array::try_from_iter(base.clone()).unwrap();
+    a.select(&DefaultBufferManager, vec![4usize, 2, 1, 0, 3]).unwrap();
+    a.select(&DefaultBufferManager, vec![3usize, 0, 1, 4]).unwrap();
+    out.push(("selected twice".to_string(), a));
+    out.push(("constant 2".to_string(), Array::new_constant(&DefaultBufferManager, &BorrowedScalarValue::Int32(2), 4).unwrap()));
+    out.push(("constant NULL".to_string(), Array::new_null(&DefaultBufferManager, DataType::int32(), 4).unwrap()));
+    out
+}
+
+#[test]
+fn c05c06_distinct_comparison__layout_independent_definition__nat() {
+    use crate::arrays::scalar::BorrowedScalarValue;
+    use crate::buffer::buffer_manager::DefaultBufferManager;
+    let logical = |arr: &Array| -> Vec<Option<i32>> {
+        (0..arr.logical_len())
+            .map(|i| match arr.get_value(i).unwrap() {
+                BorrowedScalarValue::Null => None,
+                BorrowedScalarValue::Int32(v) => Some(v),
+                _ => panic!("unexpected value"),
+            })
+            .collect()
+    };
+    let sels: [Vec<usize>; 3] = [vec![0, 1, 2, 3], vec![3, 2, 1, 0], vec![2, 0, 2]];
+    let mut cases = 0usize;
+    for (ln, l) in distinct_layouts() {
+        for (rn, r) in distinct_layouts() {
+            let (lv, rv) = (logical(&l), logical(&r));
+            assert!(lv.len() == 4 && rv.len() == 4);
+            for sel in &sels {
+                for not in [false, true] {
+                    let mut out = Array::new(&DefaultBufferManager, DataType::boolean(), sel.len()).unwrap();
+                    if not {
+                        binary_distinct_execute::<IsNotDistinctFromOperation, PhysicalI32>(&l, &r, sel.iter().copied(), OutBuffer::from_array(&mut out).unwrap()).unwrap();
+                    } else {
+                        binary_distinct_execute::<IsDistinctFromOperation, PhysicalI32>(&l, &r, sel.iter().copied(), OutBuffer::from_array(&mut out).unwrap()).unwrap();
+                    }
+                    for (k, &row) in sel.iter().enumerate() {
+                        let distinct = match (lv[row], rv[row]) {
+                            (None, None) => false,
+                            (None, _) | (_, None) => true,
+                            (Some(a), Some(b)) => a != b,
+                        };
+                        let want = if not { !distinct } else { distinct };
+                        let got = match out.get_value(k).unwrap() {
+                            BorrowedScalarValue::Boolean(b) => Some(b),
+                            _ => None,
+                        };
+                        assert!(
+                            got == Some(want),
+                            "{:?} IS {}DISTINCT FROM {:?} is {got:?} (left layout: {ln}, right layout: {rn}, row {row} at output position {k} of selection {sel:?})",
+                            lv[row],
+                            if not { "NOT " } else { "" },
+                            rv[row]
+                        );
+                        cases += 1;
+                    }
+                }
+            }
+        }
+    }
+    assert!(cases == 9 * 9 * (4 + 4 + 3) * 2);
+}
+
+//@fn functions/scalar/builtin/comparison.rs binary_distinct_execute (IS [NOT] DISTINCT FROM loop over validity masks and dictionary selections)
+
 include!("/verif/build/kani-gen/comparison.playback.rs");
